@@ -746,9 +746,9 @@ def pair_imported(s, p, b):
 _PAIR_INV = [
     "len(S_p) == len(base_pairs) and len(base_pairs) >= 0 and len(P_p) == {n}",
     "forall(lambda j: implies(0 <= j and j < len(S_p), 0 <= S_p[j] and S_p[j] < {n} and pair_kept(structure3d, {PL}[S_p[j]]) "
-    "and pair_imported(structure3d, {PL}[S_p[j]], base_pairs[j])))",
+    "and pair_imported(structure3d, {PL}[S_p[j]], base_pairs[j])), pats=['S_p[j]'])",
     "forall(lambda j, j2: implies(0 <= j and j < j2 and j2 < len(S_p), S_p[j] < S_p[j2]))",
-    "forall(lambda l: implies(0 <= l and l < {n} and pair_kept(structure3d, {PL}[l]), 0 <= P_p[l] and P_p[l] < len(S_p) and S_p[P_p[l]] == l))",
+    "forall(lambda l: implies(0 <= l and l < {n} and pair_kept(structure3d, {PL}[l]), 0 <= P_p[l] and P_p[l] < len(S_p) and S_p[P_p[l]] == l), pats=['P_p[l]'])",
 ]
 _PAIR_LABELS = ["one-source-pair-per-base-pair", "each-base-pair-joins-the-resolved-residues-with-the-named-class", "in-document-order-each-once",
                 "every-pair-with-valid-class-and-resolvable-names-is-kept"]
@@ -808,10 +808,10 @@ def stk_of_step(s, st, t):
 _STACK_INV = [
     "len(SS) == len(stackings) and len(ST) == len(stackings) and len(stackings) >= 0",
     "forall(lambda j: implies(0 <= j and j < len(SS), 0 <= SS[j] and {dj} and step_ok(structure3d, {SL}[SS[j]], ST[j]) "
-    "and stackings[j] == stk_of_step(structure3d, {SL}[SS[j]], ST[j])))",
+    "and stackings[j] == stk_of_step(structure3d, {SL}[SS[j]], ST[j])), pats=['SS[j]'])",
     "forall(lambda j, j2: implies(0 <= j and j < j2 and j2 < len(SS), SS[j] < SS[j2] or (SS[j] == SS[j2] and ST[j] < ST[j2])))",
     "forall(lambda a, t: implies(0 <= a and {dom} and step_ok(structure3d, {SL}[a], t), "
-    "0 <= POS[(a, t)] and POS[(a, t)] < len(SS) and SS[POS[(a, t)]] == a and ST[POS[(a, t)]] == t))",
+    "0 <= POS[(a, t)] and POS[(a, t)] < len(SS) and SS[POS[(a, t)]] == a and ST[POS[(a, t)]] == t), pats=['POS[(a, t)]'])",
 ]
 _STACK_LABELS = ["one-source-step-per-stacking", "each-stacking-joins-two-consecutive-resolved-members-of-a-stack", "in-document-and-stack-order-each-step-once",
                  "every-consecutive-resolvable-step-of-every-stack-is-imported"]
